@@ -1119,10 +1119,12 @@ theorem mapM_sumPiece_missing (t : Tbl ℝ) (w : ℝ) (ls : List (List (Atom × 
 
 /-! ### the calculator equals the direct calculation -/
 
-/-- what the calculator reports for a direct result: the three SLDs, zeros for the vacuum -/
+/-- what the calculator reports for a direct result: the three SLDs, zeros for the vacuum,
+    `(None, None, None)` for missing data -/
 noncomputable def compOf : Outcome ℝ → CompOut ℝ
   | .ok s => .ok s.sldRe s.sldIm s.sldInc
-  | _ => .zeros
+  | .vacuum => .zeros
+  | .missing => .missing
 
 theorem foldl_add_eq_sum (l : List ℝ) (s0 : ℝ) : l.foldl (· + ·) s0 = s0 + l.sum := by
   induction l generalizing s0 with
@@ -1183,84 +1185,70 @@ theorem compositeCompute_eq (parts : List (Acc ℝ)) (ws : List ℝ) (ρ w : ℝ
   · simp [hz, compOf]
   · simp only [beq_iff_eq, hz, if_false, compOf, calculateScattering, cellVolume]
 
-/-- **C17**: for materials whose atoms all have neutron data, the calculator built from the
-    materials and applied to weights `ws` and density `ρ` returns the real, imaginary and
-    incoherent SLD of the direct calculation on the formula `Σ wᵢ·mᵢ` (and `0, 0, 0` where the
-    direct calculation returns the vacuum tuple) -/
-theorem composite_eq_direct (t : Tbl ℝ) (ms : List (Items ℝ)) (ws : List ℝ) (ρ w : ℝ)
-    (hlen : ws.length = ms.length) (hd : ∀ m ∈ ms, AllData t m.atoms) :
-    compositeSld t (ms.map Items.atoms) w ws ρ
-      = some (compOf (neutronScattering t (weighted ws ms).atoms ρ w)) := by
-  have hW : AllData t (weighted ws ms).atoms := by
+theorem allData_weighted (t : Tbl ℝ) (ms : List (Items ℝ)) (ws : List ℝ)
+    (hlen : ws.length = ms.length) :
+    AllData t (weighted ws ms).atoms ↔ ∀ m ∈ ms, AllData t m.atoms := by
+  constructor
+  · intro hW m hm
+    rw [allData_atoms_iff] at hW ⊢
+    intro a ha
+    exact hW a ((itemsOccurs_weighted ws ms hlen a).mpr ⟨m, hm, ha⟩)
+  · intro hd
     rw [allData_atoms_iff]
     intro a ha
     obtain ⟨m, hm, hma⟩ := (itemsOccurs_weighted ws ms hlen a).mp ha
     exact (allData_atoms_iff t m).mp (hd m hm) a hma
-  unfold compositeSld
-  rw [mapM_sumPiece_allData t w _ (by
-    intro l hl; obtain ⟨m, hm, rfl⟩ := List.mem_map.mp hl; exact hd m hm)]
-  rw [neutronScattering_allData t _ ρ w hW]
-  simp only [Option.map_some, Option.some.injEq, List.map_map]
-  have hproj : ∀ (g : Acc ℝ → ℝ) (f : Atom → ℝ), (∀ l, g (accSums t w Acc.zero l) = wsum f l) →
-      dotSum ws ((ms.map ((fun l => accSums t w Acc.zero l) ∘ Items.atoms)).map g)
-        = g (accSums t w Acc.zero (weighted ws ms).atoms) := by
-    intro g f hg
-    rw [hg, ← dotSum_wsum, List.map_map]
-    congr 1; apply List.map_congr_left; intro m _; simp [hg]
-  apply compositeCompute_eq
-  · exact hproj (·.molarMass) t.atomMass (fun l => by rw [accSums_zero_eq_wsum])
-  · exact hproj (·.numAtoms) (fun _ => 1) (fun l => by rw [accSums_zero_eq_wsum])
-  · rw [dotSumC_eq]
-    have h1 := hproj (fun a => a.bc.1) (fun a => (pa t w a).1.1) (fun l => by rw [accSums_zero_eq_wsum])
-    have h2 := hproj (fun a => a.bc.2) (fun a => (pa t w a).1.2) (fun l => by rw [accSums_zero_eq_wsum])
-    ext
-    · simpa [List.map_map, Function.comp_def] using h1
-    · simpa [List.map_map, Function.comp_def] using h2
-  · exact hproj (·.sigS) (fun a => (pa t w a).2) (fun l => by rw [accSums_zero_eq_wsum])
 
-/-- a material with an atom without data: building the calculator raises, and the direct
-    calculation returns `(None, None, None)` – both refuse, on exactly the same inputs -/
-theorem composite_missing_iff (t : Tbl ℝ) (ms : List (Items ℝ)) (ws : List ℝ) (ρ w : ℝ)
+/-- **C17**: the calculator built from the materials and applied to weights `ws` and density `ρ`
+    returns the real, imaginary and incoherent SLD of the direct calculation on the formula
+    `Σ wᵢ·mᵢ`: `0, 0, 0` where the direct calculation returns the vacuum tuple and
+    `(None, None, None)` where it does (some material contains an atom without SLD) -/
+theorem composite_eq_direct (t : Tbl ℝ) (ms : List (Items ℝ)) (ws : List ℝ) (ρ w : ℝ)
     (hlen : ws.length = ms.length) :
-    compositeSld t (ms.map Items.atoms) w ws ρ = none ↔
-      neutronScattering t (weighted ws ms).atoms ρ w = .missing := by
+    compositeSld t (ms.map Items.atoms) w ws ρ
+      = compOf (neutronScattering t (weighted ws ms).atoms ρ w) := by
   by_cases hd : ∀ m ∈ ms, AllData t m.atoms
-  · rw [composite_eq_direct t ms ws ρ w hlen hd]
-    have hW : AllData t (weighted ws ms).atoms := by
-      rw [allData_atoms_iff]
-      intro a ha
-      obtain ⟨m, hm, hma⟩ := (itemsOccurs_weighted ws ms hlen a).mp ha
-      exact (allData_atoms_iff t m).mp (hd m hm) a hma
-    constructor
-    · intro h; cases h
-    · intro h; exact absurd hW ((missing_iff t _ ρ w).mp h)
+  · have hW : AllData t (weighted ws ms).atoms := (allData_weighted t ms ws hlen).mpr hd
+    unfold compositeSld
+    rw [mapM_sumPiece_allData t w _ (by
+      intro l hl; obtain ⟨m, hm, rfl⟩ := List.mem_map.mp hl; exact hd m hm)]
+    rw [neutronScattering_allData t _ ρ w hW]
+    simp only [List.map_map]
+    have hproj : ∀ (g : Acc ℝ → ℝ) (f : Atom → ℝ), (∀ l, g (accSums t w Acc.zero l) = wsum f l) →
+        dotSum ws ((ms.map ((fun l => accSums t w Acc.zero l) ∘ Items.atoms)).map g)
+          = g (accSums t w Acc.zero (weighted ws ms).atoms) := by
+      intro g f hg
+      rw [hg, ← dotSum_wsum, List.map_map]
+      congr 1; apply List.map_congr_left; intro m _; simp [hg]
+    apply compositeCompute_eq
+    · exact hproj (·.molarMass) t.atomMass (fun l => by rw [accSums_zero_eq_wsum])
+    · exact hproj (·.numAtoms) (fun _ => 1) (fun l => by rw [accSums_zero_eq_wsum])
+    · rw [dotSumC_eq]
+      have h1 := hproj (fun a => a.bc.1) (fun a => (pa t w a).1.1) (fun l => by rw [accSums_zero_eq_wsum])
+      have h2 := hproj (fun a => a.bc.2) (fun a => (pa t w a).1.2) (fun l => by rw [accSums_zero_eq_wsum])
+      ext
+      · simpa [List.map_map, Function.comp_def] using h1
+      · simpa [List.map_map, Function.comp_def] using h2
+    · exact hproj (·.sigS) (fun a => (pa t w a).2) (fun l => by rw [accSums_zero_eq_wsum])
   · have hex : ∃ l ∈ ms.map Items.atoms, ¬ AllData t l := by
       by_contra hc
       apply hd; intro m hm
       by_contra hm'
       exact hc ⟨m.atoms, List.mem_map_of_mem hm, hm'⟩
-    have hW : ¬ AllData t (weighted ws ms).atoms := by
-      intro hW
-      apply hd; intro m hm
-      rw [allData_atoms_iff] at hW ⊢
-      intro a ha
-      exact hW a ((itemsOccurs_weighted ws ms hlen a).mpr ⟨m, hm, ha⟩)
+    have hW : ¬ AllData t (weighted ws ms).atoms :=
+      fun hW => hd ((allData_weighted t ms ws hlen).mp hW)
     unfold compositeSld
     rw [mapM_sumPiece_missing t w _ hex, neutronScattering_missing t _ ρ w hW]
-    simp
+    rfl
 
 /-- **zeros**: zero total weight (all weights 0) or zero density gives `0, 0, 0`, like the
     direct calculation's vacuum tuple -/
 theorem zero_gives_zeros (t : Tbl ℝ) (ms : List (Items ℝ)) (ws : List ℝ) (ρ w : ℝ)
     (hlen : ws.length = ms.length) (hd : ∀ m ∈ ms, AllData t m.atoms)
     (hz : ρ = 0 ∨ ∀ x ∈ ws, x = 0) :
-    compositeSld t (ms.map Items.atoms) w ws ρ = some .zeros ∧
+    compositeSld t (ms.map Items.atoms) w ws ρ = .zeros ∧
       neutronSld t (weighted ws ms).atoms ρ w = some (0, 0, 0) := by
-  have hW : AllData t (weighted ws ms).atoms := by
-    rw [allData_atoms_iff]
-    intro a ha
-    obtain ⟨m, hm, hma⟩ := (itemsOccurs_weighted ws ms hlen a).mp ha
-    exact (allData_atoms_iff t m).mp (hd m hm) a hma
+  have hW : AllData t (weighted ws ms).atoms := (allData_weighted t ms ws hlen).mpr hd
   have hvac : neutronScattering t (weighted ws ms).atoms ρ w = .vacuum := by
     rw [vacuum_iff t _ ρ w hW]
     rcases hz with hz | hz
@@ -1277,8 +1265,79 @@ theorem zero_gives_zeros (t : Tbl ℝ) (ms : List (Items ℝ)) (ws : List ℝ) (
         exact List.sum_eq_zero hall
       rw [this, zero_mul]
   refine ⟨?_, ?_⟩
-  · rw [composite_eq_direct t ms ws ρ w hlen hd, hvac]; rfl
+  · rw [composite_eq_direct t ms ws ρ w hlen, hvac]; rfl
   · unfold neutronSld; rw [hvac]; rfl
+
+/-! ### vector wavelength for the calculator -/
+
+theorem any_any_missing_iff (t : Tbl ℝ) (mats : List (List (Atom × ℝ))) :
+    mats.any (fun m => m.any fun e => (t.neutron e.1).isNone) = true ↔ ∃ l ∈ mats, ¬ AllData t l := by
+  simp only [List.any_eq_true]
+  constructor
+  · rintro ⟨m, hm, h⟩
+    exact ⟨m, hm, (any_missing_iff t m).mp (by simpa [List.any_eq_true] using h)⟩
+  · rintro ⟨m, hm, h⟩
+    exact ⟨m, hm, by simpa [List.any_eq_true] using (any_missing_iff t m).mpr h⟩
+
+theorem compositeCompute_ok_of_nonzero (parts : List (Acc ℝ)) (ws : List ℝ) (ρ : ℝ)
+    (h : dotSum ws (parts.map (·.molarMass)) * ρ ≠ 0) :
+    ∃ a b c, compositeCompute parts ws ρ = .ok a b c := by
+  unfold compositeCompute
+  simp only [beq_iff_eq, h, if_false]
+  exact ⟨_, _, _, rfl⟩
+
+theorem compositeCompute_zero (parts : List (Acc ℝ)) (ws : List ℝ) (ρ : ℝ)
+    (h : dotSum ws (parts.map (·.molarMass)) * ρ = 0) :
+    compositeCompute parts ws ρ = .zeros := by
+  unfold compositeCompute
+  simp [h]
+
+/-- **vector wavelength**: the `i`-th entry of the calculator built for a wavelength vector is the
+    calculator built for the `i`-th wavelength; the result has one entry per wavelength -/
+theorem composite_vector_is_map (t : Tbl ℝ) (mats : List (List (Atom × ℝ))) (ws weights : List ℝ)
+    (ρ : ℝ) (i : Nat) (hi : i < ws.length) :
+    (compositeSldV t mats ws weights ρ).get? i = some (compositeSld t mats ws[i] weights ρ) := by
+  unfold compositeSldV compositeSld
+  by_cases hd : ∀ l ∈ mats, AllData t l
+  · have hany : mats.any (fun m => m.any fun e => (t.neutron e.1).isNone) = false := by
+      rw [Bool.eq_false_iff]
+      intro h
+      obtain ⟨l, hl, hn⟩ := (any_any_missing_iff t mats).mp h
+      exact hn (hd l hl)
+    rw [mapM_sumPiece_allData t ws[i] mats hd]
+    have hparts : mats.map (sumsAt t ws[i]) = mats.map fun l => accSums t ws[i] Acc.zero l := by
+      apply List.map_congr_left; intro l hl; exact sumsAt_allData t _ l (hd l hl)
+    have hmm : (mats.map fun l => accSums t ws[i] Acc.zero l).map (·.molarMass)
+        = mats.map (molarMassOf t) := by
+      rw [List.map_map]; apply List.map_congr_left; intro l _
+      simp [molarMassOf_eq, accSums, Acc.zero]
+    simp only [hany, Bool.false_eq_true, if_false]
+    by_cases hz : dotSum weights (mats.map (molarMassOf t)) * ρ = 0
+    · simp only [beq_iff_eq, hz, if_true, CompOutV.get?]
+      rw [compositeCompute_zero _ _ _ (by rw [hmm]; exact hz)]
+    · simp only [beq_iff_eq, hz, if_false, CompOutV.get?, List.getElem?_map,
+        List.getElem?_eq_getElem hi, Option.map_some, Option.some.injEq]
+      rw [hparts]
+      obtain ⟨a, b, c, habc⟩ := compositeCompute_ok_of_nonzero
+        (mats.map fun l => accSums t ws[i] Acc.zero l) weights ρ (by rw [hmm]; exact hz)
+      rw [habc]; rfl
+  · have hex : ∃ l ∈ mats, ¬ AllData t l := by
+      by_contra hc; apply hd; intro l hl; by_contra hn; exact hc ⟨l, hl, hn⟩
+    have hany : mats.any (fun m => m.any fun e => (t.neutron e.1).isNone) = true :=
+      (any_any_missing_iff t mats).mpr hex
+    rw [mapM_sumPiece_missing t _ mats hex]
+    simp [hany, CompOutV.get?]
+
+theorem composite_vector_length (t : Tbl ℝ) (mats : List (List (Atom × ℝ))) (ws weights : List ℝ)
+    (ρ : ℝ) (l : List (ℝ × ℝ × ℝ)) (h : compositeSldV t mats ws weights ρ = .ok l) :
+    l.length = ws.length := by
+  unfold compositeSldV at h
+  split at h
+  · cases h
+  · simp only at h
+    split at h
+    · cases h
+    · cases h; simp
 
 /-! ## C16: D2O contrast -/
 
